@@ -36,6 +36,7 @@ func pushRules(p *core.Prog, r *core.Report, mergeOnly bool) {
 	r.Rule("MERGE-RANGED", "in (*LocationList).Push the Ranged+Ranged clause merges only when v.End == u.Start, always merges when forced and abutting, and stores exactly Ranged{v.Start, u.End, Partial{v.Partial.Partial5, u.Partial.Partial3}} (resolved through literals, locals, package variables and constructor calls)", 1)
 	if !mergeOnly {
 		r.Rule("PUSH-CASES", "every case of the type switches in (*LocationList).Push names a concrete location type (no interface cases)", 13)
+		r.Rule("PUSH-TARGET", "every store to .Data or .Next in (*LocationList).Push goes through the node whose Data the type switch inspects (the last node of the list): a reduction written into another node replaces a part that has nothing to do with the pair being reduced", 2)
 		r.Rule("PUSH-ABSORB", "a Push clause that keeps one of {held, pushed} and drops the other drops only a zero-length site (Between), or a Point that the guard places inside the kept location (residue model: Between [x,x), Point [x,x+1), Ranged [Start,End) with Start < End; the guard is a single equality of coordinates)", 8)
 	}
 	info := p.Info(core.PkgGts)
@@ -57,6 +58,9 @@ func pushRules(p *core.Prog, r *core.Report, mergeOnly bool) {
 	}
 	vname := switchVar(outer)
 	merged := false
+	if !mergeOnly {
+		pushTarget(p, r, info, fd, outer)
+	}
 	for _, cc := range outer.Body.List {
 		ocl := cc.(*ast.CaseClause)
 		otype := caseTypes(info, ocl)
@@ -338,6 +342,12 @@ func checkAbsorb(p *core.Prog, r *core.Report, info *types.Info, fd *ast.FuncDec
 	pos := p.Pos(cl.Pos())
 	is := clauseIf(cl)
 	if is == nil {
+		if n := len(cl.Body); n > 0 {
+			if _, isRet := cl.Body[n-1].(*ast.ReturnStmt); isRet {
+				r.Bad("PUSH-ABSORB", k, p.Pos(cl.Body[n-1].Pos()), "the clause returns whether or not its guard held: every "+key[strings.Index(key, "+")+1:]+" pushed onto a "+key[:strings.Index(key, "+")]+" is dropped instead of being linked behind it (Repair of {misc_feature 6, misc_feature 11..20} keeps only the point: residues 11..20 lose their feature)")
+				return
+			}
+		}
 		r.Und("PUSH-ABSORB", k, pos, "the clause is not a single `if cond { ...; return }`")
 		return
 	}
@@ -632,4 +642,75 @@ func PartialCarry(p *core.Prog, r *core.Report, methods ...string) {
 			}
 		}
 	}
+}
+
+// pushTarget decides PUSH-TARGET: the node that is written is the node that
+// was inspected.
+func pushTarget(p *core.Prog, r *core.Report, info *types.Info, fd *ast.FuncDecl, outer *ast.TypeSwitchStmt) {
+	key := "gts.(*LocationList).Push|stores"
+	// the subject: X in `switch v := X.Data.(type)`
+	var subj types.Object
+	var ta *ast.TypeAssertExpr
+	switch a := outer.Assign.(type) {
+	case *ast.AssignStmt:
+		if len(a.Rhs) == 1 {
+			ta, _ = ast.Unparen(a.Rhs[0]).(*ast.TypeAssertExpr)
+		}
+	case *ast.ExprStmt:
+		ta, _ = ast.Unparen(a.X).(*ast.TypeAssertExpr)
+	}
+	if ta != nil {
+		if sel, ok := ast.Unparen(ta.X).(*ast.SelectorExpr); ok && sel.Sel.Name == "Data" {
+			subj = core.ObjOf(info, sel.X)
+		}
+	}
+	if subj == nil {
+		r.Und("PUSH-TARGET", key, p.Pos(outer.Pos()), "the type switch is not on the Data of a node variable")
+		return
+	}
+	n, bad := 0, 0
+	ast.Inspect(fd.Body, func(nd ast.Node) bool {
+		if _, ok := nd.(*ast.FuncLit); ok {
+			return false
+		}
+		as, ok := nd.(*ast.AssignStmt)
+		if !ok {
+			return true
+		}
+		for _, l := range as.Lhs {
+			sel, ok := ast.Unparen(l).(*ast.SelectorExpr)
+			if !ok || (sel.Sel.Name != "Data" && sel.Sel.Name != "Next") {
+				continue
+			}
+			o := core.ObjOf(info, sel.X)
+			if o == nil || !isLocationListNode(info, sel.X) {
+				continue
+			}
+			n++
+			if o != subj {
+				bad++
+				r.Bad("PUSH-TARGET", fmt.Sprintf("%s#%d", key, n), p.Pos(as.Pos()), fmt.Sprintf("`%s` writes node `%s`, but the reduction looked at the Data of `%s`: with more than one node in the list the reduced pair overwrites an unrelated part (Join(1..2, 4, 4..6) becomes join(4..6,4): residues 1..2 are gone and base 4 is read after 5 and 6)", types.ExprString(l), types.ExprString(sel.X), subj.Name()))
+			}
+		}
+		return true
+	})
+	if n == 0 {
+		r.Und("PUSH-TARGET", key, p.Pos(fd.Pos()), "no store to .Data / .Next found in Push")
+		return
+	}
+	if bad == 0 {
+		r.Ok("PUSH-TARGET", key, p.Pos(outer.Pos()), fmt.Sprintf("%d stores, all through `%s`", n, subj.Name()))
+		r.Ok("PUSH-TARGET", key+"|subject", p.Pos(outer.Pos()), "the switch inspects "+subj.Name()+".Data")
+	}
+}
+
+func isLocationListNode(info *types.Info, e ast.Expr) bool {
+	t := info.TypeOf(e)
+	if t == nil {
+		return false
+	}
+	if pt, ok := t.Underlying().(*types.Pointer); ok {
+		t = pt.Elem()
+	}
+	return core.NamedOf(t) == core.PkgGts+".LocationList"
 }
